@@ -2,6 +2,7 @@
 // Dijkstra half of C19 (scan bound V+E+1 on an instrumented graph type).
 #include "families.hpp"
 #include "gcase.hpp"
+#include "forked.hpp"
 #include "registry.hpp"
 
 #include "BaseGraph/algorithms/paths.hpp"
@@ -98,6 +99,14 @@ std::string checkSource(const G &g, const Model &m, const WRef &r, unsigned s, b
         return "findGeodesicsDijkstra from " + std::to_string(s) + " scanned more than " + std::to_string(cg.cap) + " neighbourhoods (V=" + std::to_string(V) + ", E=" + std::to_string(E) + ")";
     }
     maxScans = std::max<unsigned long long>(maxScans, cg.scans);
+    {
+        // the search on the graph class itself (the instrumented wrapper forwards to the same object: same answer)
+        auto direct = algorithms::findGeodesicsDijkstra(g, s);
+        if (direct.first != res.first || direct.second != res.second) {
+            observer = "class-vs-wrapper";
+            return "findGeodesicsDijkstra from " + std::to_string(s) + " answers differently on the graph class and on a wrapper forwarding to it";
+        }
+    }
     if (exact) {
         for (double dv : res.first) {
             uint64_t bits;
@@ -208,8 +217,112 @@ bool zeroCycle(const WRef &r) {
     return false;
 }
 
+// Searches keep no memory of earlier ones: the same search gives the same (already validated) answer after d-1 other
+// searches that never reach its source.  d is a word-size boundary (2^8, 2^16) of a call counter.
+template <class G>
+std::string checkAfterManyCalls(const G &g, const Model &m, const WRef &r, long long d, std::string &observer, StepFacts &facts) {
+    const double INF = std::numeric_limits<double>::infinity();
+    size_t V = m.n;
+    for (unsigned s = 0; s < V; ++s) {
+        // a source that reaches something, and another vertex whose searches never reach that source
+        auto ds = bellmanFord(r, s);
+        size_t reached = 0;
+        for (unsigned v = 0; v < V; ++v)
+            reached += v != s && ds[v] != INF;
+        if (!reached)
+            continue;
+        long long other = -1;
+        for (unsigned u = 0; u < V && other < 0; ++u)
+            if (u != s && bellmanFord(r, u)[s] == INF)
+                other = u;
+        if (other < 0)
+            continue;
+        CountingWeighted<G> cg, cu;
+        cg.g = cu.g = &g;
+        auto before = algorithms::findGeodesicsDijkstra(g, s);
+        auto beforeW = algorithms::findGeodesicsDijkstra(cg, s);
+        for (long long i = 1; i < d; ++i) {
+            (void)algorithms::findGeodesicsDijkstra(g, (VertexIndex)other);
+            (void)algorithms::findGeodesicsDijkstra(cu, (VertexIndex)other);
+        }
+        auto after = algorithms::findGeodesicsDijkstra(g, s);
+        auto afterW = algorithms::findGeodesicsDijkstra(cg, s);
+        facts.tag("many_calls_between_" + std::to_string(d));
+        if (before.first != after.first || before.second != after.second || beforeW.first != afterW.first || beforeW.second != afterW.second) {
+            observer = "after-many-calls";
+            return "findGeodesicsDijkstra from " + std::to_string(s) + " answers differently after " + std::to_string(d - 1) + " searches from " + std::to_string(other) + " (which never reach " +
+                   std::to_string(s) + ")";
+        }
+        return "";
+    }
+    return "";
+}
+
+// `fresh 1`: the case runs in a forked child of a process that never searched, on the directed and the undirected weighted graph
+// built from the same edge list, in a generated order
+template <class X>
+std::string freshOne(const Case &c, const char *what, std::string &observer, StepFacts &facts) {
+    typedef GT<X> T;
+    GSpec s = parseGSpec(c, T::directed);
+    X g(0);
+    Model m;
+    buildGraph(s, c.get("wmode", "int"), g, m);
+    WRef ref = makeRef(m);
+    unsigned long long scans = 0;
+    for (unsigned sv = 0; sv < m.n; ++sv) {
+        std::string r = checkSource(g, m, ref, sv, true, false, observer, facts, scans);
+        if (!r.empty())
+            return std::string("on the ") + what + ": " + r;
+    }
+    return "";
+}
+template <class G>
+void runFresh(const Case &c, verif_result *out) {
+    typedef typename std::conditional<GT<G>::directed, UndirectedWeightedGraph, DirectedWeightedGraph>::type Other;
+    std::string cls = c.get("class") + ":" + c.get("label", "none");
+    StepFacts facts;
+    std::string observer, r;
+    g_digest = 1469598103934665603ULL;
+    try {
+        bool otherFirst = c.geti("fresh_order", 0) % 2 == 1;
+        for (int k = 0; k < 2 && r.empty(); ++k) {
+            if ((k == 0) != otherFirst)
+                r = freshOne<G>(c, "class of the case", observer, facts);
+            else
+                r = freshOne<Other>(c, "class of the other directedness", observer, facts);
+            if (!r.empty())
+                r = "searched as number " + std::to_string(k + 1) + " of two classes in a fresh process, " + r;
+        }
+    } catch (const std::exception &ex) {
+        observer = "exception";
+        r = std::string("unexpected exception ") + typeid(ex).name() + ": " + ex.what();
+    }
+    facts.tag("fresh_process_two_classes");
+    if (!r.empty()) {
+        fillResult(out, 1, false, 0, cls + "|fresh|" + observer, joinTags(facts), "property C12 class " + cls + " (fresh): " + r);
+        return;
+    }
+    fillResult(out, 0, facts.tags.count("zero_weight_cycle") || facts.tags.count("tie") || facts.tags.count("unreachable"), g_digest, "", joinTags(facts), "");
+}
+
+template <class G>
+void runInner(const Case &c, verif_result *out);
+
 template <class G>
 void run(const Case &c, verif_result *out) {
+    if (c.geti("fresh", 0) == 0) {
+        runInner<G>(c, out);
+        return;
+    }
+    std::string how;
+    if (!runForked([&](verif_result *o) { runFresh<G>(c, o); }, out, how)) {
+        std::string cls = c.get("class") + ":" + c.get("label", "none");
+        fillResult(out, 1, false, 0, cls + "|fresh|child-died", "", "property C12 class " + cls + ": the process running the case ended abnormally (" + how + ")");
+    }
+}
+
+template <class G>
+void runInner(const Case &c, verif_result *out) {
     typedef GT<G> T;
     std::string prop = c.get("prop", "C12");
     std::string cls = c.get("class") + ":" + c.get("label", "none");
@@ -300,6 +413,8 @@ void run(const Case &c, verif_result *out) {
                 if (!r.empty())
                     break;
             }
+        if (r.empty() && c.geti("wrap_calls", 0) > 0)
+            r = checkAfterManyCalls(g, m, ref, c.geti("wrap_calls", 0), observer, facts);
     } catch (const std::exception &ex) {
         observer = "exception";
         r = std::string("unexpected exception ") + typeid(ex).name() + ": " + ex.what();
